@@ -40,6 +40,9 @@ class Toolchain:
 
     def __init__(self, root):
         self.root = root
+        import threading
+        self._locks = {}
+        self._locks_guard = threading.Lock()
         self.compiles = 0
         self.links = 0
         self.runs = 0
@@ -54,6 +57,14 @@ class Toolchain:
     def compile(self, src_text, cfg, pic=False):
         key = sha(src_text + "\0" + cfg_name(cfg) + ("\0pic" if pic else ""))[:24]
         obj = os.path.join(self.root, "obj", key + ".o")
+        if os.path.exists(obj):
+            return obj, None
+        with self._locks_guard:
+            lock = self._locks.setdefault(key, __import__("threading").Lock())
+        with lock:
+            return self._compile_locked(key, obj, src_text, cfg, pic)
+
+    def _compile_locked(self, key, obj, src_text, cfg, pic):
         if os.path.exists(obj):
             return obj, None
         src = os.path.join(self.root, "src", key + ".cpp")
@@ -108,7 +119,10 @@ def parse_run(rc, out, err):
     tail = []
     for line in err.decode(errors="replace").splitlines():
         if line.startswith("@B "):
-            open_ids.append(int(line[3:]))
+            t = line[3:].split(" ")
+            open_ids.append(int(t[0]))
+            if len(t) > 1:
+                res.setdefault("masks", {})[int(t[0])] = t[1]
         elif line.startswith("@E "):
             i = int(line[3:])
             if i in open_ids:
@@ -132,6 +146,34 @@ def unhex(h):
 
 
 # ------------------------------------------------------------------------------- program building
+def observer_source(cat, fam):
+    """the only code that names Internal:: tables; emitted only if those names still exist in the tree"""
+    import re as _re
+    from .catalogue import _read, PHQ
+    base = _read(os.path.join(PHQ, "Base.hpp")) + _read(os.path.join(PHQ, "UnitSystem.hpp"))
+    names = [n for n in ("Abbreviations", "Spellings", "ConsistentUnits", "RelatedUnitSystems") if _re.search(r"\b%s\b" % n, base) and "namespace Internal" in base]
+    if not names:
+        return None, []
+    o = ["// generated observer: linked last, touches nothing before its own (last) initialiser"]
+    for U, d in cat.units.items():
+        o.append("#include <%s>" % d["header"])
+    o.append("#include <cstddef>")
+    o.append("static char z(const void* p, std::size_t n) { const volatile unsigned char* b = static_cast<const volatile unsigned char*>(p); "
+             "for (std::size_t i = 0; i < n; ++i) if (b[i]) return '1'; return '0'; }")
+    o.append('extern "C" int vrt_observe(char* out, int cap) {\n  int k = 0;')
+    labels = []
+    for U in cat.units:
+        for n in names:
+            o.append("  if (k < cap) out[k++] = z(&PhQ::Internal::%s<PhQ::Unit::%s>, sizeof(PhQ::Internal::%s<PhQ::Unit::%s>));" % (n, U, n, U))
+            labels.append("%s<%s>" % (n, U))
+    for n in ("Abbreviations", "Spellings"):
+        if n in names:
+            o.append("  if (k < cap) out[k++] = z(&PhQ::Internal::%s<PhQ::UnitSystem>, sizeof(PhQ::Internal::%s<PhQ::UnitSystem>));" % (n, n))
+            labels.append("%s<UnitSystem>" % n)
+    o.append("  return k;\n}")
+    return "\n".join(o) + "\n", labels
+
+
 def render_program(program, cfg):
     """returns {tu name: source text} for this compiler (model probes are GCC-only: clang 14
     rejects ConstitutiveModel/*.hpp irrespective of any schedule)"""
@@ -148,7 +190,12 @@ def render_program(program, cfg):
     return out
 
 
-def build_and_run(tc, program, schedule):
+def without_item(program, pid):
+    return {"label": program["label"],
+            "tus": [dict(t, items=[it for it in t["items"] if it.get("id") != pid]) for t in program["tus"]]}
+
+
+def build_and_run(tc, program, schedule, depth=0):
     """one simulated run = one (program, schedule): compile (cached), link in the given order, run
     the clean reference process and the real process, attribute pre-main crashes.
     returns dict(failures=[...], infra=None|str, observed=int, skipped_after_crash=[...])"""
@@ -175,7 +222,14 @@ def build_and_run(tc, program, schedule):
                 placed = True
         else:
             line.append(objs[n])
-    tag = sha(json.dumps([cfg_name(cfg), pack, [objs[n] for n in schedule["order"]]]))[:20]
+    obs_src = getattr(tc, "observer_src", None)
+    use_obs = bool(schedule.get("observer")) and obs_src is not None and pack == "objects"
+    if use_obs:
+        o, e = tc.compile(obs_src, cfg, False)
+        if e:
+            return {"failures": [], "infra": "observer: " + e, "observed": 0}
+        line.append(o)   # always last: its initialiser runs after everyone else's
+    tag = sha(json.dumps([cfg_name(cfg), pack, use_obs, [objs[n] for n in schedule["order"]]]))[:20]
     exe, e = tc.link(cfg, line, tag)
     if e:
         return {"failures": [], "infra": e, "observed": 0}
@@ -184,7 +238,14 @@ def build_and_run(tc, program, schedule):
     if not ref["done"]:
         lit = ref["in_flight"]
         if lit is not None and lit in items and not ref["reached_main"]:
-            return {"failures": [mk_failure(items[lit], "crash:%s" % sig(ref["rc"]), ref, schedule)], "infra": None, "observed": 0}
+            # a literal-form object (cannot be skipped at run time) died before main: report it, then
+            # rebuild the program without it so that the remaining probes are still observed
+            f = mk_failure(items[lit], "hang" if ref["rc"] is None else "crash:%s" % sig(ref["rc"]), ref, schedule)
+            if depth < 3:
+                rest = build_and_run(tc, without_item(program, lit), schedule, depth + 1)
+                rest["failures"] = [f] + rest["failures"]
+                return rest
+            return {"failures": [f], "infra": None, "observed": 0}
         return {"failures": [], "infra": "reference process (nothing evaluated before main) did not finish: rc=%s %s" % (ref["rc"], ref["stderr_tail"]), "observed": 0}
     failures = []
     skip = []
@@ -204,6 +265,10 @@ def build_and_run(tc, program, schedule):
         cls = "hang" if res["rc"] is None else "crash:%s" % sig(res["rc"])
         failures.append(mk_failure(items[pid], cls, res, schedule))
         if items[pid]["form"] != "wrapped":
+            if depth < 3:
+                rest = build_and_run(tc, without_item(program, pid), schedule, depth + 1)
+                rest["failures"] = failures + rest["failures"]
+                return rest
             return {"failures": failures, "infra": None, "observed": 0}
         skip.append(pid)
     observed = 0
@@ -219,7 +284,8 @@ def build_and_run(tc, program, schedule):
             failures.append(mk_failure(it, "mismatch", res, schedule, pre=p["pre"], main=p["main"]))
         elif p["st"] == 0 and r is not None and (r["mst"] != 0 or r["main"] != p["pre"]):
             failures.append(mk_failure(it, "mismatch-vs-clean-main", res, schedule, pre=p["pre"], main=r["main"]))
-    return {"failures": failures, "infra": None, "observed": observed, "skipped": skip}
+    return {"failures": failures, "infra": None, "observed": observed, "skipped": skip, "masks": res.get("masks", {}),
+            "outcome": sorted((pid, p["st"], p["pre"]) for pid, p in res["probes"].items())}
 
 
 def sig(rc):
@@ -510,26 +576,67 @@ def main(tier, seed, only=None):
                 if has_by:
                     jobs.append((pi, {"cfg": cfg, "packaging": "bystanders-shared", "order": orders[0]}))
                 jobs.append((pi, {"cfg": cfg, "packaging": "users-shared", "order": orders[0]}))
-            if thorough and cover and cfg in CONFIGS_QUICK[:2]:
+            if cover and ((thorough and cfg in CONFIGS_QUICK) or (pi % 4 == 0 and cfg in (CONFIGS_QUICK[0], CONFIGS_QUICK[3]))):
                 jobs.append((pi, {"cfg": cfg, "packaging": "users-shared", "order": ["u0", "main"]}))
+    obs_src, obs_labels = observer_source(cat, "gcc")
+    tc.observer_src = obs_src
+    if obs_src:
+        for (pi, sch) in jobs:
+            if sch["packaging"] == "objects":
+                sch["observer"] = True
     log("programs=%d (covering=%d seeded=%d) configs=%d schedules=%d" % (
         len(programs), len(programs) - nseeded, nseeded, len(configs), len(jobs)))
-    # phase 1: compile every distinct (TU, config) once, in parallel (the expensive part)
-    pre = {}
-    for pi, s in jobs:
-        srcs = render_program(programs[pi], s["cfg"])
-        roles = {t["name"]: t["role"] for t in programs[pi]["tus"]}
-        shared_role = {"bystanders-shared": "bystander", "users-shared": "user"}.get(s["packaging"])
-        for n, text in srcs.items():
-            pic = shared_role is not None and roles.get(n) == shared_role
-            pre[(sha(text), cfg_name(s["cfg"]), pic)] = (text, s["cfg"], pic)
-    log("compiling %d objects on %d cores ..." % (len(pre), common.NCPU))
-    # biggest first
-    work = sorted(pre.values(), key=lambda w: -len(w[0]))
-    errs = [e for (_, e) in pmap(lambda w: tc.compile(*w), work) if e]
-    if errs:
-        log("INFRASTRUCTURE: the generated harness does not compile against the current tree:\n" + errs[0])
+    # phase 1: compile every distinct (TU, config) once, in parallel (the expensive part).  A probe that the
+    # library cannot compile for this numeric type (compile-time defects such as Time<float>::Create are outside
+    # C19) is dropped and counted, never reported.
+    import re as _re
+    dropped_probes = []
+    for rnd in range(8):
+        pre = {}
+        owner = {}
+        for pi, s in jobs:
+            srcs = render_program(programs[pi], s["cfg"])
+            roles = {t["name"]: t["role"] for t in programs[pi]["tus"]}
+            shared_role = {"bystanders-shared": "bystander", "users-shared": "user"}.get(s["packaging"])
+            for n, text in srcs.items():
+                pic = shared_role is not None and roles.get(n) == shared_role
+                pre[(sha(text), cfg_name(s["cfg"]), pic)] = (text, s["cfg"], pic)
+                owner[sha(text + "\0" + cfg_name(s["cfg"]) + ("\0pic" if pic else ""))[:24]] = (pi, text)
+        if obs_src:
+            for cfg in configs:
+                pre[(sha(obs_src), cfg_name(cfg), False)] = (obs_src, cfg, False)
+        if rnd == 0:
+            log("compiling %d objects on %d cores ..." % (len(pre), common.NCPU))
+        work = sorted(pre.values(), key=lambda w: -len(w[0]))
+        errs = [e for (_, e) in pmap(lambda w: tc.compile(*w), work) if e]
+        if not errs:
+            break
+        progress = False
+        for e in errs:
+            m = _re.search(r"src/(\w{24})\.cpp", e)
+            if not m or m.group(1) not in owner:
+                continue
+            pi, text = owner[m.group(1)]
+            lines = text.split("\n")
+            for lm in _re.finditer(r"%s\.cpp:(\d+):\d+:\s+(?:required from here|error)" % m.group(1), e):
+                ln = min(int(lm.group(1)) - 1, len(lines) - 1)
+                for back in range(ln, -1, -1):
+                    fm = _re.search(r"probe_fn_(\d+)\(\)|bystander_\w+?_(\d+)\(\)", lines[back])
+                    if fm:
+                        pid_ = int(fm.group(1) or fm.group(2))
+                        if (pi, pid_) not in dropped_probes:
+                            dropped_probes.append((pi, pid_))
+                            programs[pi] = without_item(programs[pi], pid_)
+                            progress = True
+                        break
+        if not progress:
+            log("INFRASTRUCTURE: the generated harness does not compile against the current tree:\n" + errs[0])
+            return 2
+    else:
+        log("INFRASTRUCTURE: generated programs still do not compile after dropping %d probes" % len(dropped_probes))
         return 2
+    if dropped_probes:
+        log("dropped %d probes the library cannot compile (compile-time defects outside C19)" % len(dropped_probes))
     log("compiled in %.0fs; linking and running %d schedules ..." % (time.time() - t0, len(jobs)))
     results = pmap(lambda j: build_and_run(tc, programs[j[0]], j[1]), jobs)
     infra = [r["infra"] for r in results if r["infra"]]
@@ -542,6 +649,13 @@ def main(tier, seed, only=None):
     sched_keys = set()
     nontrivial = set()
     kinds = {}
+    mask_states = set()
+    masks_seen = set()
+    for (pi, s), r in zip(jobs, results):
+        items_kind = {it["id"]: it.get("kind") for t in programs[pi]["tus"] for it in t["items"] if "id" in it}
+        for pid_, m_ in r.get("masks", {}).items():
+            masks_seen.add(m_)
+            mask_states.add((items_kind.get(pid_), m_))
     for (pi, s), r in zip(jobs, results):
         observed += r["observed"]
         p = programs[pi]
@@ -611,6 +725,11 @@ def main(tier, seed, only=None):
         "simulated_runs": len(jobs), "runs_per_hour": round(len(jobs) / wall * 3600, 1),
         "simulated_time": "not applicable: the library has no clock seam; progress is counted in probes and schedules",
         "probe_evaluations_before_main": observed,
+        "probes_dropped_uncompilable": len(dropped_probes),
+        "observer": {"enabled": bool(obs_src), "tables_watched": len(obs_labels),
+                     "distinct_table_initialisation_masks_seen_at_probe_time": len(masks_seen),
+                     "distinct_(probe_kind,mask)_states": len(mask_states),
+                     "meaning": "mask = per library table, whether its storage was still all-zero (not yet dynamically initialised) when a probe started before main"},
         "table_dependent_probes_by_kind": kinds,
         "programs": len(programs), "covering_programs": len(programs) - nseeded, "seeded_programs": nseeded,
         "configs": [cfg_name(c) for c in configs],
